@@ -470,7 +470,7 @@ def run(ctx):
     for k, w in want_one.items():
         if r1.get(k) != w:
             ctx.violation(dict(model="", pdk="registry", prim="-", select="one:" + k, what=str(r1.get(k))[:40], exc=""), dict(registry="one", results=r1), f"hdl21.pdk.compile {k}: {r1.get(k)}")
-    if not str(r1.get("bad_name", "")).startswith("raised") or any(b in r1.get("bad_name", "") for b in BAD_EXC):
+    if not str(r1.get("bad_name", "")).startswith("raised") or any(b in r1.get("bad_name", "") for b in BAD_EXC) or "no_such_pdk" not in r1.get("bad_name", ""):  # descriptive: says which name it could not find
         ctx.violation(dict(model="", pdk="registry", prim="-", select="one:bad_name", what=str(r1.get("bad_name"))[:40], exc=""), dict(registry="one", results=r1), "unknown PDK name not rejected descriptively")
     # every order of the four ways of naming the one registered PDK (quick: every ordered pair)
     import itertools as _it
